@@ -106,7 +106,21 @@ type heldHandle struct {
 
 func (h *cHarness) get(ns, key uint64, size int) *heldHandle {
 	sl := h.slot(ns, key)
-	hd := h.c.Get(ns, key, func() (int, cache.Value) {
+	// three ways to ask (picked by the arguments, no extra draw): plain Get, through a
+	// NamespaceGetter (the way table readers use the block cache), and a lookup-only Get
+	// (nil constructor) that falls back to a constructing Get when the key is not cached
+	mode := (key ^ uint64(size)) % 3
+	if mode == 2 {
+		if hd := h.c.Get(ns, key, nil); hd != nil {
+			return h.adopt(ns, key, hd)
+		}
+	}
+	getter := func(f func() (int, cache.Value)) *cache.Handle { return h.c.Get(ns, key, f) }
+	if mode == 1 {
+		g := &cache.NamespaceGetter{Cache: h.c, NS: ns}
+		getter = func(f func() (int, cache.Value)) *cache.Handle { return g.Get(key, f) }
+	}
+	hd := getter(func() (int, cache.Value) {
 		v := &cVal{ns: ns, key: key, id: atomic.AddInt64(&h.nextID, 1), size: size, h: h}
 		sl.mu.Lock()
 		if p := sl.cur; p != nil && atomic.LoadInt32(&p.finalized) == 0 && atomic.LoadInt32(&p.out) > 0 {
@@ -122,6 +136,11 @@ func (h *cHarness) get(ns, key uint64, size int) *heldHandle {
 	if hd == nil {
 		return nil
 	}
+	return h.adopt(ns, key, hd)
+}
+
+// adopt checks a handle the cache handed out for (ns,key) and registers it as outstanding.
+func (h *cHarness) adopt(ns, key uint64, hd *cache.Handle) *heldHandle {
 	v, _ := hd.Value().(*cVal)
 	if v == nil {
 		h.fail("Get(%d,%d) returned a handle without a value", ns, key)
